@@ -32,7 +32,7 @@ InsNoDefaultChain(r) ==
 NoDefaultChain(o, r) == IF "ast" \in DOMAIN o THEN AstNoDefaultChain(TreeOf(o.ast)) ELSE ("ins" \in DOMAIN r /\ InsNoDefaultChain(r))
 
 KF_Run(prop, why, o, r) ==
-  IF prop \in {"C01", "C06"} /\ r.status = "err" /\ "msgk" \in DOMAIN r /\ r.msgk \in {"No references in register.", "No references in register"} /\ NoDefaultChain(o, r)
+  IF prop \in {"C01", "C06"} /\ r.status = "err" /\ "msgk" \in DOMAIN r /\ r.msgk = "No references in register" /\ NoDefaultChain(o, r)
   THEN "C06-else-chain-without-default"
   ELSE IF prop = "C01" /\ r.store = "simple" /\ r.status = "err" /\ "msgk" \in DOMAIN r /\ r.msgk = "Cannot create symbol list from types"
   THEN "C01-simple-symlist-with-number" ELSE "NEW"
